@@ -17,6 +17,7 @@ import (
 	"encoding/json"
 	"flag"
 	"fmt"
+	"go/ast"
 	"go/parser"
 	"go/token"
 	"os"
@@ -64,6 +65,7 @@ func main() {
 	reSyncSingle := regexp.MustCompile(`(?m)^import[ \t]+(?:([A-Za-z_][A-Za-z0-9_]*)[ \t]+)?"sync"[ \t]*$`)
 	reAtomicSingle := regexp.MustCompile(`(?m)^import[ \t]+(?:([A-Za-z_][A-Za-z0-9_]*)[ \t]+)?"sync/atomic"[ \t]*$`)
 	rewritten := 0
+	facts := newFacts()
 	for _, dir := range []string{*repo, filepath.Join(*repo, "post")} {
 		ents, err := os.ReadDir(dir)
 		if err != nil {
@@ -83,6 +85,9 @@ func main() {
 			b, err := os.ReadFile(srcPath)
 			if err != nil {
 				die("%v", err)
+			}
+			if dir == *repo {
+				facts.scan(path, b)
 			}
 			fset := token.NewFileSet()
 			f, err := parser.ParseFile(fset, path, b, parser.ImportsOnly)
@@ -159,8 +164,14 @@ func main() {
 	addDir(filepath.Join(*rt, "vsync"), filepath.Join(*repo, "verifrt", "vsync"))
 	addDir(filepath.Join(*rt, "vatomic"), filepath.Join(*repo, "verifrt", "vatomic"))
 
-	// 3. export file
-	repl[filepath.Join(*repo, "zz_verif_export.go")] = filepath.Join(*rt, "export", "zz_verif_export.go")
+	// 3. export file, generated to fit the internals the working tree actually has (a refactoring of
+	// the regexp cache or of the pools must degrade an observer, not break the build of every check)
+	exp := filepath.Join(*out, "repo", "zz_verif_export.go")
+	os.MkdirAll(filepath.Dir(exp), 0o755)
+	if err := os.WriteFile(exp, []byte(facts.exportFile()), 0o644); err != nil {
+		die("%v", err)
+	}
+	repl[filepath.Join(*repo, "zz_verif_export.go")] = exp
 
 	// 4. runtime patch
 	goroot := runtime.GOROOT()
@@ -225,4 +236,234 @@ func main() {
 		die("%v", err)
 	}
 	fmt.Printf("mkoverlay: %d files rewritten, %d overlay entries\n", rewritten, len(repl))
+}
+
+// ---- facts about the internals of package validate, gathered syntactically ---------------------
+
+type repoFacts struct {
+	funcs   map[string]bool            // top-level functions
+	methods map[string]bool            // method names (any receiver)
+	vars    map[string]string          // package-level variable -> source text of its initialiser ("" if none)
+	fields  map[string]map[string]bool // struct type -> field names
+}
+
+func newFacts() *repoFacts {
+	return &repoFacts{funcs: map[string]bool{}, methods: map[string]bool{}, vars: map[string]string{}, fields: map[string]map[string]bool{}}
+}
+
+func (r *repoFacts) scan(path string, src []byte) {
+	if strings.HasSuffix(path, "pools_debug.go") {
+		return // alternative build of pools.go (tag validatedebug), never compiled here
+	}
+	fset := token.NewFileSet()
+	f, err := parser.ParseFile(fset, path, src, 0)
+	if err != nil {
+		return // go build will say so
+	}
+	text := func(n ast.Node) string {
+		return string(src[fset.Position(n.Pos()).Offset:fset.Position(n.End()).Offset])
+	}
+	for _, d := range f.Decls {
+		switch t := d.(type) {
+		case *ast.FuncDecl:
+			if t.Recv == nil {
+				r.funcs[t.Name.Name] = true
+			} else {
+				r.methods[t.Name.Name] = true
+			}
+		case *ast.GenDecl:
+			for _, sp := range t.Specs {
+				switch v := sp.(type) {
+				case *ast.ValueSpec:
+					if t.Tok != token.VAR {
+						continue
+					}
+					for i, n := range v.Names {
+						init := ""
+						if i < len(v.Values) {
+							init = text(v.Values[i])
+						} else if v.Type != nil {
+							init = "type " + text(v.Type)
+						}
+						r.vars[n.Name] = init
+					}
+				case *ast.TypeSpec:
+					if st, ok := v.Type.(*ast.StructType); ok {
+						m := map[string]bool{}
+						for _, fl := range st.Fields.List {
+							for _, n := range fl.Names {
+								m[n.Name] = true
+							}
+						}
+						r.fields[v.Name.Name] = m
+					}
+				}
+			}
+		}
+	}
+}
+
+func (r *repoFacts) hasFields(typ string, names ...string) bool {
+	m := r.fields[typ]
+	if m == nil {
+		return false
+	}
+	for _, n := range names {
+		if !m[n] {
+			return false
+		}
+	}
+	return true
+}
+
+// exportFile assembles zz_verif_export.go from the variants that fit. Every observer keeps its name
+// and signature; a variant that cannot be offered is replaced by a harmless stand-in and named in
+// VerifDegraded (the checks mention it in their evidence and skip the oracle that needed it).
+func (r *repoFacts) exportFile() string {
+	var b, degraded strings.Builder
+	needFmt := false
+	deg := func(s string) { fmt.Fprintf(&degraded, "%q, ", s) }
+
+	// pools
+	if r.funcs["resetPools"] {
+		b.WriteString("// VerifResetPools installs fresh, empty pools.\nfunc VerifResetPools() { resetPools() }\n\n")
+	} else {
+		deg("reset-pools")
+		b.WriteString("func VerifResetPools() {}\n\n")
+	}
+
+	// regexp cache
+	init, has := r.vars["reDict"]
+	_, hasMutex := r.vars["cacheMutex"]
+	switch {
+	case has && strings.Contains(init, "atomic.Value"):
+		b.WriteString(`// VerifRegexpCache returns pattern key -> source text of the cached expression.
+func VerifRegexpCache() map[string]string {
+	out := map[string]string{}
+	if cache, ok := reDict.Load().(map[string]*re.Regexp); ok {
+		for k, v := range cache {
+			if v == nil {
+				out[k] = "<nil>"
+			} else {
+				out[k] = v.String()
+			}
+		}
+	}
+	return out
+}
+
+// VerifSetRegexpCache replaces the cache content (harness: start states of the cache protocol).
+func VerifSetRegexpCache(patterns ...string) {
+	m := map[string]*re.Regexp{}
+	for _, p := range patterns {
+		m[p] = re.MustCompile(p)
+	}
+	reDict.Store(m)
+}
+
+`)
+	case has && hasMutex && strings.Contains(init, "map[string]*") && strings.Contains(init, "Regexp"):
+		b.WriteString(`// the cache is a plain map guarded by cacheMutex in this tree
+func VerifRegexpCache() map[string]string {
+	cacheMutex.Lock()
+	defer cacheMutex.Unlock()
+	out := map[string]string{}
+	for k, v := range reDict {
+		if v == nil {
+			out[k] = "<nil>"
+		} else {
+			out[k] = v.String()
+		}
+	}
+	return out
+}
+
+func VerifSetRegexpCache(patterns ...string) {
+	cacheMutex.Lock()
+	defer cacheMutex.Unlock()
+	for k := range reDict {
+		delete(reDict, k)
+	}
+	for _, p := range patterns {
+		reDict[p] = re.MustCompile(p)
+	}
+}
+
+`)
+	default:
+		deg("regexp-cache")
+		b.WriteString("func VerifRegexpCache() map[string]string { return nil }\n\nfunc VerifSetRegexpCache(patterns ...string) { _ = re.MustCompile }\n\n")
+	}
+
+	// results pool
+	_, hasPools := r.vars["pools"]
+	poolField := false
+	for _, m := range r.fields {
+		if m["poolOfResults"] {
+			poolField = true
+		}
+	}
+	if hasPools && poolField && r.methods["BorrowResult"] && r.methods["RedeemResult"] {
+		b.WriteString("// VerifBorrowResult hands out a pooled result exactly as internal callers get it.\nfunc VerifBorrowResult() *Result { return pools.poolOfResults.BorrowResult() }\n\n// VerifRedeemResult gives a result back to the pool.\nfunc VerifRedeemResult(r *Result) { pools.poolOfResults.RedeemResult(r) }\n\n")
+	} else {
+		deg("results-pool")
+		b.WriteString("func VerifBorrowResult() *Result { return new(Result) }\n\nfunc VerifRedeemResult(r *Result) {}\n\n")
+	}
+
+	// private option used by AgainstSchema
+	if r.funcs["withRecycleResults"] {
+		b.WriteString("// VerifWithRecycleResults exposes the private option AgainstSchema uses (results borrowed from the pool).\nfunc VerifWithRecycleResults() Option { return withRecycleResults(true) }\n\n")
+	} else {
+		deg("recycle-results-option")
+		b.WriteString("func VerifWithRecycleResults() Option { return func(*SchemaValidatorOptions) {} }\n\n")
+	}
+
+	// shared sentinel result
+	_, hasSentinel := r.vars["emptyResult"]
+	switch {
+	case hasSentinel && r.hasFields("Result", "Errors", "Warnings", "MatchCount", "wantsRedeemOnMerge", "data", "rootObjectSchemata", "fieldSchemata", "itemSchemata") && r.methods["Len"]:
+		needFmt = true
+		b.WriteString(`// VerifSentinelState describes how the shared "valid, nothing to say" result (returned by many
+// validators instead of a fresh one) differs from its initial value; "" when it is pristine.
+func VerifSentinelState() string {
+	r := emptyResult
+	if len(r.Errors) == 0 && len(r.Warnings) == 0 && r.MatchCount == 1 && !r.wantsRedeemOnMerge && r.data == nil &&
+		r.rootObjectSchemata.Len() == 0 && len(r.fieldSchemata) == 0 && len(r.itemSchemata) == 0 {
+		return ""
+	}
+	return fmt.Sprintf("errors=%d warnings=%d matchCount=%d pooled=%v schemata=%d/%d/%d", len(r.Errors), len(r.Warnings), r.MatchCount,
+		r.wantsRedeemOnMerge, r.rootObjectSchemata.Len(), len(r.fieldSchemata), len(r.itemSchemata))
+}
+
+// VerifRestoreSentinel puts the shared result back into its initial state (harness: executions
+// must not influence each other).
+func VerifRestoreSentinel() { *emptyResult = Result{MatchCount: 1} }
+
+`)
+	case hasSentinel && r.hasFields("Result", "Errors", "Warnings", "MatchCount"):
+		needFmt = true
+		deg("sentinel-private-fields")
+		b.WriteString(`func VerifSentinelState() string {
+	r := emptyResult
+	if len(r.Errors) == 0 && len(r.Warnings) == 0 && r.MatchCount == 1 {
+		return ""
+	}
+	return fmt.Sprintf("errors=%d warnings=%d matchCount=%d", len(r.Errors), len(r.Warnings), r.MatchCount)
+}
+
+func VerifRestoreSentinel() { *emptyResult = Result{MatchCount: 1} }
+
+`)
+	default:
+		deg("sentinel")
+		b.WriteString("func VerifSentinelState() string { return \"\" }\n\nfunc VerifRestoreSentinel() {}\n\n")
+	}
+
+	head := "package validate\n\n// Generated by mkoverlay for THIS working tree (never on disk in the repository): observers and\n// resets the oracles need. Nothing here changes behaviour of the library.\n\nimport (\n"
+	if needFmt {
+		head += "\t\"fmt\"\n"
+	}
+	head += "\tre \"regexp\"\n)\n\n"
+	head += "// VerifDegraded names the observers this tree's internals do not allow (empty on the pinned tree).\nfunc VerifDegraded() []string { return []string{" + degraded.String() + "} }\n\n"
+	return head + b.String()
 }
